@@ -78,6 +78,9 @@ pub struct Subject {
     pub mem_size: usize,
     /// Collections whose elements encode to nothing but allocate per element.
     pub empty_alloc: bool,
+    /// The schema contains a collection whose elements encode to nothing: a hostile count makes
+    /// decoding take time (and, for `empty_alloc`, memory) proportional to the claimed count.
+    pub empty_elem: bool,
     /// Big fixed-size subjects (slow to generate / decode); sampled rarely.
     pub heavy: bool,
     /// Bulk subject name -> element-wise twin subject name.
@@ -269,6 +272,18 @@ fn decode_len_op<T: DecodeLength>(data: &[u8]) -> Result<usize, String> {
     T::len(data).map_err(err_s)
 }
 
+fn schema_has_empty_elem(s: &S) -> bool {
+    match s {
+        S::Seq(_, e, _, _) | S::Set(e) => e.is_empty() || schema_has_empty_elem(e),
+        S::Map(k, v) => (k.is_empty() && v.is_empty()) || schema_has_empty_elem(k) || schema_has_empty_elem(v),
+        S::Opt(e) | S::Array(_, e) | S::GArray(_, e) | S::Ptr(_, e) | S::Range(e) => schema_has_empty_elem(e),
+        S::Res(a, b) => schema_has_empty_elem(a) || schema_has_empty_elem(b),
+        S::Tuple(f) => f.iter().any(schema_has_empty_elem),
+        S::Enum(vs) => vs.iter().any(|(_, f)| f.iter().any(schema_has_empty_elem)),
+        _ => false,
+    }
+}
+
 impl Subject {
     fn new<T: Modelled + Encode + Decode>(name: &'static str) -> Subject {
         Subject {
@@ -284,6 +299,7 @@ impl Subject {
             decode_len: None,
             mem_size: std::mem::size_of::<T>(),
             empty_alloc: false,
+            empty_elem: schema_has_empty_elem(&T::schema()),
             heavy: false,
             twin: None,
         }
